@@ -440,6 +440,33 @@ def rule_r8(facts, rep, rid="C20-R8"):
                       "twice in the patch graph - two live trees claim one key, and the edit carries two whole-file replacements for the same file" % " -> ".join(names[-8:]), loc(f, aff))
 
 
+def rule_r10(facts, rep, rid="C20-R10"):
+    """The two copy entry points of the builder differ only in where the first copied node is linked (insert_from_iter: as the cursor's child; append_from_visitor:
+    as its next sibling).  A Document node met on the way is transparent: each of them steps over it *in its own mode* (recurses into itself with the document's
+    child); stepping over it in the other mode links the document's first block into the wrong slot and overwrites an existing child / next link - the nodes
+    behind that link stay live but unreachable."""
+    from .common import facts_at, controlling_tests
+    for nm in ("GraphBuilder::insert_from_iter", "GraphBuilder::append_from_visitor"):
+        f = facts.fn(nm)
+        rep.saw_fn(f)
+        c = ctx(f)
+        key = "%s|document-stepped-over-in-own-mode" % f.def_
+        sites = []
+        for x in fb.walk(f.body):
+            if x.get("k") == "mcall" and (fb.callee(x) or "").endswith(("GraphBuilder::insert_from_iter", "GraphBuilder::append_from_visitor")):
+                under_doc = any(e.get("k") == "mcall" and e.get("name") == "is_document" and pol for e, pol in facts_at(c, x))
+                if under_doc:
+                    sites.append(x)
+        if not sites:
+            rep.violation(rid, key, "%s no longer steps over a Document node (no recursive call under `is_document()`)" % fb.last_seg(f.def_), f.loc)
+        elif all(fb.callee(x) == f.def_ for x in sites):
+            rep.ok(rid, key, "under is_document(): recurses into itself with the document's child", loc(f, sites[0]))
+        else:
+            other = [fb.last_seg(fb.callee(x)) for x in sites if fb.callee(x) != f.def_]
+            rep.violation(rid, key, "%s steps over a Document node by calling %s: the document's first block is linked in the other mode (as a child instead of a sibling or the reverse) and "
+                          "overwrites a link of the cursor node - the nodes behind it stay live but unreachable" % (fb.last_seg(f.def_), other[0]), loc(f, sites[0]))
+
+
 def run(facts, rep, tier):
     rep.rule("C20-R1", "Encapsulation: graph-linking primitives (Graph::builder, GraphBuilder::{set_id,set_insert,link_node_id}, "
              "Arena::{set_node,node_mut,delete_branch}, Graph::{node_mut,add_graph_node}, GraphNode::{set_next_id,set_child_id}) are called only "
@@ -472,3 +499,5 @@ def run(facts, rep, tier):
              "cursor is restored after its items (otherwise the next block overwrites a child link and the nodes behind it stay live but unreachable).")
     from . import c01 as _c01
     _c01.rule_r11(facts, rep, "C20-R9")
+    rep.rule("C20-R10", "A Document node inside a copied tree is stepped over in the copying mode of the caller (insert vs append): otherwise an existing link of the cursor is overwritten.")
+    rule_r10(facts, rep)
